@@ -47,7 +47,7 @@ func newSched(c *kernel.RunCtx) *simrt.Sched {
 
 // reportSched turns scheduler findings into violations; returns true if one was raised.
 func reportSched(c *kernel.RunCtx, s *simrt.Sched, what string) bool {
-	c.Stats.SimNanos += int64(simrt.Now().Sub(simEpoch))
+	c.Stats.SimNanos += s.ClockTravel()
 	c.Count("sched.steps", s.Steps())
 	c.Count("sched.accesses", s.Accesses)
 	c.Count("probe.lock_contention", s.BlockedRW)
